@@ -122,3 +122,32 @@ func closeDD(s string) string {
 	}
 	return s
 }
+
+// HasDD reports whether the spec contains a spec-level --
+func (p *Prog) HasDD() bool {
+	if p.AST == nil {
+		toks, _, _, _, ok := RefLex(p.Spec)
+		if !ok {
+			return strings.Contains(p.Spec, "--")
+		}
+		for _, t := range toks {
+			if t.Typ == "DD" {
+				return true
+			}
+		}
+		return false
+	}
+	var walk func(n *Node) bool
+	walk = func(n *Node) bool {
+		if n.K == KDD {
+			return true
+		}
+		for _, k := range n.Kids {
+			if walk(k) {
+				return true
+			}
+		}
+		return false
+	}
+	return walk(p.AST)
+}
